@@ -512,7 +512,7 @@ def generate(rng: random.Random, tier: str):
     for st in read_states():
         for fmt in (2, 3):
             yield {"kind": "read", "state": st, "fmt": fmt, "block": "read-states", "finite": True}
-    for i in range(120 if quick else 800):
+    for i in range(120 if quick else 600):
         yield from object_cases(gen_md(rng), rng, 10 if quick else 20, "random", cli=(i % (8 if quick else 5) == 0))
     for i in range(40 if quick else 300):
         doc = gen_md(rng, special=True)
